@@ -34,24 +34,45 @@ def execute(ex: Execution, keys: list[str], max_cancels: int, combined: bool) ->
         state = ["new"] * n  # new | waiting | inside | done | cancelled
         entered = [False] * n
         tasks: dict[int, asyncio.Task] = {}
-        w = {"keys": "".join(keys)}
+        w = {"keys": "|".join(keys) if any(len(k) > 1 for k in keys) else "".join(keys)}
+
+        waiting_key: dict[int, Any] = {}
+
+        async def hold(i: int, key: str, phase: str, body: Any = None) -> None:
+            """acquire ``key``, stay inside until the explorer opens gate (i, phase); ``body`` runs inside first"""
+            state[i] = "waiting"
+            waiting_key[i] = key
+            async with locks(key):
+                waiting_key[i] = None
+                state[i] = "inside"
+                entered[i] = True
+                inside.setdefault(key, []).append(i)
+                if len(inside[key]) > 1:
+                    v.append(("two_holders_for_one_key", w, f"key {key!r}: holders {inside[key]}"))
+                try:
+                    if body is not None:
+                        await body()
+                    gid = i if phase == "" else (i, phase)
+                    gates[gid] = loop.create_future()
+                    try:
+                        await gates[gid]
+                    finally:
+                        gates.pop(gid, None)
+                finally:
+                    inside[key].remove(i)
+                    state[i] = "between"
 
         async def worker(i: int) -> None:
-            key = keys[i]
-            state[i] = "waiting"
+            spec = keys[i]
             try:
-                async with locks(key):
-                    state[i] = "inside"
-                    entered[i] = True
-                    inside.setdefault(key, []).append(i)
-                    if len(inside[key]) > 1:
-                        v.append(("two_holders_for_one_key", w, f"key {key!r}: holders {inside[key]}"))
-                    gates[i] = loop.create_future()
-                    try:
-                        await gates[i]
-                    finally:
-                        inside[key].remove(i)
-                        gates.pop(i, None)
+                if ">" in spec:  # nested: takes the second key while holding the first
+                    outer, inner = spec.split(">")
+                    await hold(i, outer, "outer", body=lambda: hold(i, inner, "inner"))
+                elif "," in spec:  # back to back: leaves a key and asks for the next one at once
+                    for n_, k in enumerate(spec.split(",")):
+                        await hold(i, k, f"#{n_}")
+                else:
+                    await hold(i, spec, "")
                 state[i] = "done"
             except asyncio.CancelledError:
                 state[i] = "cancelled"
@@ -65,18 +86,18 @@ def execute(ex: Execution, keys: list[str], max_cancels: int, combined: bool) ->
             steps += 1
             # invariants at quiescence
             for i in range(n):
-                if state[i] == "waiting":
-                    holders = inside.get(keys[i], [])
+                if state[i] == "waiting" and waiting_key.get(i) is not None:
+                    holders = inside.get(waiting_key[i], [])
                     if not holders:
                         # nobody holds this key, yet the task is still waiting -> blocked by another key
                         # (or a lost wake-up)
                         v.append(("waiter_blocked_without_holder", w,
-                                  f"task {i} (key {keys[i]!r}) waits although nobody holds that key; "
+                                  f"task {i} waits for key {waiting_key[i]!r} although nobody holds that key; "
                                   f"inside={inside} states={state}"))
             acts: list[tuple[str, Any]] = []
             if started < n:
                 acts.append((f"start{started}", ("start", started)))
-            for i in sorted(gates):
+            for i in sorted(gates, key=str):
                 if not gates[i].done():
                     acts.append((f"release{i}", ("rel", i)))
             if cancels < max_cancels:
@@ -84,7 +105,7 @@ def execute(ex: Execution, keys: list[str], max_cancels: int, combined: bool) ->
                     if i in tasks and not tasks[i].done():
                         acts.append((f"cancel{i}", ("cancel", i)))
                 if combined:
-                    for i in sorted(gates):
+                    for i in sorted((g for g in gates if isinstance(g, int))):
                         if gates[i].done():
                             continue
                         for j in range(n):
@@ -151,10 +172,18 @@ def programs(tier: str) -> list[Program]:
                                   {"keys": keys, "cancels": cancels, "combined": combined},
                                   (lambda ex, keys=keys, cancels=cancels, combined=combined: execute(ex, keys, cancels, combined)),
                                   max_dev=max_dev))
+    # a task that leaves a key and asks for it again at once (while a waiter has been woken but has not run yet), tasks that
+    # take a second key while holding one, and a bystander on an unrelated key
+    for keys in (["a,a", "a"], ["a,a", "a", "c"], ["a,a", "a>b", "c"], ["a>b", "b>a"][:1] + ["b"], ["a,b", "b,a", "a"]):
+        ps.append(Program(f"keyed_lock(keys={'|'.join(keys)})", {"keys": keys, "cancels": 0, "combined": False},
+                          (lambda ex, keys=keys: execute(ex, keys, 0, False)), max_dev=None if len(keys) <= 3 else 6))
+    ps.append(Program("keyed_lock(keys=a,a|a|c,cancels<=1)", {"keys": ["a,a", "a", "c"], "cancels": 1, "combined": False},
+                      (lambda ex: execute(ex, ["a,a", "a", "c"], 1, False)), max_dev=(5 if q else None)))
     return ps
 
 
-RULE = ("2-4 tasks on overlapping keys, each started at an explorer-chosen point and holding the lock until released; "
+RULE = ("2-4 tasks on overlapping keys, each started at an explorer-chosen point and holding the lock until released - single "
+        "sections, back-to-back sections on the same / another key, and sections nested inside another key's section; "
         "up to 2 task.cancel() calls at any quiescent point (also in the same loop iteration as a release, both "
         "orders) x all interleavings; occupancy per key, no waiting without a holder of the same key, every "
         "non-cancelled task enters, no lock state left; non-trivial = at least one deviation from the default order")
